@@ -9,6 +9,8 @@ use vcommon::tape::Tape;
 
 use crate::eval::Scratch;
 use crate::projcheck::{check_project, CheckOpts, ProjStats};
+#[allow(unused_imports)]
+use vcommon::model::*;
 
 pub fn std_classes(p: &Project, st: &ProjStats) -> Vec<String> {
     let mut classes = vec![];
@@ -54,7 +56,10 @@ pub fn project_case(
         mutation = m(&mut p, t);
     }
     opts.style.seed = style_seed;
-    let st = check_project(&p, &opts, &scratch.0.join("p"), t)?;
+    let st = match check_project(&p, &opts, &scratch.0.join("p"), t) {
+        Ok(st) => st,
+        Err(f) => return Err(minimize(&p, &opts, scratch, f)),
+    };
     let pj = ser::project_to_json(&p);
     let txt = serde_json::to_string(&pj).unwrap_or_default();
     let mut classes = std_classes(&p, &st);
@@ -68,4 +73,145 @@ pub fn project_case(
         sample: Some(json!({"project": pj, "mutation": mutation, "observations": st.observations})),
         observations: st.observations,
     })
+}
+
+/// AST-level reduction of a failing project (after proptest has shrunk the tape): greedily drop
+/// top-level keys, then non-default locales, then namespaces, as long as the same failure signature
+/// persists. The reduced project is attached to the failure detail; the replay stays the tape.
+pub fn minimize(p: &Project, opts: &CheckOpts, scratch: &Scratch, first: vcommon::ctx::Failure) -> vcommon::ctx::Failure {
+    if first.signature.starts_with("harness") {
+        return first;
+    }
+    let dir = scratch.0.join("min");
+    let still = |cand: &Project| -> Option<vcommon::ctx::Failure> {
+        let mut t = Tape::new(vec![]);
+        match check_project(cand, opts, &dir, &mut t) {
+            Err(f) if f.signature == first.signature => Some(f),
+            _ => None,
+        }
+    };
+    let mut cur = p.clone();
+    let mut best = match still(&cur) {
+        Some(f) => f,
+        None => return first, // depends on the tape-chosen arguments: keep the original
+    };
+    let mut budget = 400;
+    // namespaces
+    if let Some(nss) = cur.namespaces.clone() {
+        for ns in nss {
+            if cur.namespaces.as_ref().map(|v| v.len()).unwrap_or(0) <= 1 || budget == 0 {
+                break;
+            }
+            let mut cand = cur.clone();
+            cand.namespaces.as_mut().unwrap().retain(|n| *n != ns);
+            cand.files.retain(|(n, _), _| n.as_deref() != Some(ns.as_str()));
+            budget -= 1;
+            if let Some(f) = still(&cand) {
+                cur = cand;
+                best = f;
+            }
+        }
+    }
+    // non-default locales
+    for loc in cur.locales.clone().into_iter().skip(1) {
+        if budget == 0 {
+            break;
+        }
+        let mut cand = cur.clone();
+        cand.locales.retain(|l| *l != loc);
+        cand.inherits.retain(|k, v| *k != loc && *v != loc);
+        cand.files.retain(|(_, l), _| *l != loc);
+        budget -= 1;
+        if let Some(f) = still(&cand) {
+            cur = cand;
+            best = f;
+        }
+    }
+    // inherits entries
+    for k in cur.inherits.keys().cloned().collect::<Vec<_>>() {
+        let mut cand = cur.clone();
+        cand.inherits.remove(&k);
+        if budget == 0 {
+            break;
+        }
+        budget -= 1;
+        if let Some(f) = still(&cand) {
+            cur = cand;
+            best = f;
+        }
+    }
+    // top-level keys (in every locale of the namespace), repeated until nothing more can go
+    loop {
+        let mut progress = false;
+        // every key path, nested ones included (deepest first so that groups empty out)
+        fn all_paths(o: &Obj, prefix: &mut Vec<String>, out: &mut std::collections::BTreeSet<Vec<String>>) {
+            for (k, v) in o {
+                prefix.push(k.clone());
+                out.insert(prefix.clone());
+                if let Value::Sub(inner) = v {
+                    all_paths(inner, prefix, out);
+                }
+                prefix.pop();
+            }
+        }
+        fn delete_path(o: &mut Obj, path: &[String]) {
+            match path {
+                [] => {}
+                [k] => o.retain(|(kk, _)| kk != k),
+                [k, rest @ ..] => {
+                    for (kk, v) in o.iter_mut() {
+                        if kk == k {
+                            if let Value::Sub(inner) = v {
+                                delete_path(inner, rest);
+                            }
+                        }
+                    }
+                    // drop groups that became empty
+                    o.retain(|(kk, v)| !(kk == k && matches!(v, Value::Sub(i) if i.is_empty())));
+                }
+            }
+        }
+        let mut keys: Vec<(Option<String>, Vec<String>)> = vec![];
+        for ((ns, _), o) in &cur.files {
+            let mut set = std::collections::BTreeSet::new();
+            all_paths(o, &mut vec![], &mut set);
+            for pth in set {
+                if !keys.contains(&(ns.clone(), pth.clone())) {
+                    keys.push((ns.clone(), pth));
+                }
+            }
+        }
+        keys.sort_by_key(|(_, pth)| std::cmp::Reverse(pth.len()));
+        for (ns, k) in keys {
+            if budget == 0 {
+                break;
+            }
+            let mut cand = cur.clone();
+            for ((n, _), o) in cand.files.iter_mut() {
+                if *n == ns {
+                    delete_path(o, &k);
+                }
+            }
+            if cand == cur {
+                continue;
+            }
+            // every namespace keeps a non-empty default file
+            if cand.files.iter().any(|((_, l), o)| l == cand.default_locale() && o.is_empty()) {
+                continue;
+            }
+            budget -= 1;
+            if let Some(f) = still(&cand) {
+                cur = cand;
+                best = f;
+                progress = true;
+            }
+        }
+        if !progress || budget == 0 {
+            break;
+        }
+    }
+    let mut out = best;
+    out.detail["minimized_project"] = ser::project_to_json(&cur);
+    out.detail["minimized_note"] = json!("greedy AST-level deletion of namespaces / locales / inherits entries / keys under the same failure signature; the replay tape reproduces the case before this reduction");
+    out
 }
